@@ -110,7 +110,7 @@ def prop_menu(mid):
             out.append((name, v, 'DoubleFloat', ('float', struct.pack('<d', v).hex())))
         out += [('b', True, 'Boolean', ('bool', True)), ('b0', False, 'Boolean', ('bool', False)),
                 ('s', 'é日本', 'String', ('str', 'é日本')), ('e', '', 'String', ('str', '')),
-                ("q'/ ", "it's", 'String', ('str', "it's")), ('by', b'raw\xc3\xa9', 'String', ('str', 'rawé'))]
+                ("q'/ ", "it's", 'String', ('str', "it's"))]
         return out
     if mid == 3:
         sc = [('np_i8', np.int8(-5), 'Int8'), ('np_u8', np.uint8(200), 'Uint8'), ('np_i16', np.int16(-300), 'Int16'),
@@ -148,6 +148,8 @@ def prop_menu(mid):
                 ('i6', -1, 'Int32', ('int', -1))]
     if mid == 7:  # a value of a type the writer cannot represent -> the call raises TypeError
         return [('bad', object(), 'String', ('str', ''))]
+    if mid == 8:  # bytes: the writer's dispatch names them but String() cannot take them (AttributeError) -> rejected, no effect
+        return [('by', b'raw\xc3\xa9', 'String', ('str', 'rawé'))]
     raise ValueError(mid)
 
 
@@ -190,8 +192,27 @@ def call_shapes():
         [['C', 'g', 'a', 0, 1, 7]],                # unsupported property value: rejected while the metadata is built
         [['C*', 'g', 'a', 0, 3, 0]],
         [['C*', 'g', 'a', 0, 1, 0], C('g', 'b', 1, 1)],
+        [['G', 'g', 8], C('g', 'a', 0, 1)],        # bytes property value: rejected
     ]
     return shapes
+
+
+def expect_rejected(shape):
+    """call shapes built to be refused by the writer: duplicate paths, property values it cannot encode"""
+    paths = [tuple(o[1:3]) for o in shape if o[0] in ('C', 'C*')]
+    return len(paths) != len(set(paths)) or any(o[-1] in (7, 8) for o in shape)
+
+
+def shape_vacuity(counters):
+    """every call shape must be accepted as a one-call program for at least one kind assignment, unless built to be refused"""
+    out = []
+    for i, sh in enumerate(call_shapes()):
+        n = counters.get('accepted_shape_%d' % i, 0)
+        if expect_rejected(sh) and n:
+            out.append('call shape %d is meant to be refused but was accepted' % i)
+        if not expect_rejected(sh) and not n:
+            out.append('call shape %d was never accepted by the writer (dead alphabet entry)' % i)
+    return out
 
 
 def assignments():
